@@ -272,6 +272,10 @@ func runC07(c *report.Ctx) {
 			}
 		}
 	}
+
+	// ---- range end / discovery window ---------------------------------------------------------------------
+	ruleScanToCursorInclusive(c)
+	ruleGapWindowExtends(c)
 }
 
 func stripIface(v ssa.Value) ssa.Value {
